@@ -382,7 +382,90 @@ def check(src, rep, tier):
     from . import common
     rep.guard('C15.R5', common.check_line_primitive, src, 'C15.R5', [M + ':Changelog.parse_changelog'],
               'the text str() writes for a changelog read from a file object is not read back as the same lines')
-    rep.guard('C15.R5', r5_normal_form, src)
+    rep.need('C15.R7', 3)
+    n_v, n_e = len(rep.violations), len(rep.errors)
+    rep.guard('C15.R7', r7_end_to_end, src, tier)
+    texts_hold = len(rep.violations) == n_v and len(rep.errors) == n_e
+    # (the template-level reading of the normal form: exact for every block the writer can produce when the writer is in its vocabulary)
+    n_r5 = sum(1 for i_ in rep.instances if i_.get('rule') == 'C15.R5')
+    common.SoftErrors(rep, lambda: texts_hold, 'the interpreted texts (C15.R7), which hold').guard('C15.R5', r5_normal_form, src)
+    if rep.min_instances.get('C15.R5') == 0:
+        rep.min_instances['C15.R5'] = n_r5
+
+
+def r7_end_to_end(rep, src, tier):
+    """the three clauses on whole texts: the constructor, str() and the constructor again interpreted (sa.heap, CPython's regex engine on
+    decided lines) on a family of changelog texts built from line classes -- two blocks whose trailers are, independently, complete /
+    without details / with one blank before the date / missing / replaced by another line, and degenerate texts -- under both settings of
+    allow_empty_author: lenient parsing returns; strict parsing raises the parse error exactly when lenient parsing warned; and when the
+    result can be formatted, the text parses to the same blocks and formats to itself."""
+    from .. import heap as H
+    mod = src.mod(M)
+    init = mod.method('Changelog', '__init__')
+    if init is None:
+        raise AnalysisError('%s:Changelog.__init__ not found' % M)
+    rep.saw_func(init)
+    H1, H2 = 'pkg (1.0-1) unstable; urgency=low', 'pkg (0.9) stable; urgency=high'
+    C, B = '  * change', ''
+    TRAILERS = {'complete': ' -- A B <a@b.c>  Thu, 01 Jan 2004 00:00:00 +0000', 'without details': ' --', 'one blank before the date': ' -- A B <a@b.c> Thu, 01 Jan 2004 00:00:00 +0000',
+                'missing': None, 'replaced by another line': 'something else'}
+
+    def block(h_, t_):
+        return [h_, B, C, B] + ([TRAILERS[t_]] if TRAILERS[t_] is not None else [])
+    texts = []
+    for t1 in TRAILERS:
+        for t2 in TRAILERS:
+            texts.append(('two blocks, the trailer of the first %s, of the second %s' % (t1, t2), block(H1, t1) + [B] + block(H2, t2)))
+    full = block(H1, 'complete')
+    texts += [('the empty text', []), ('a blank line', [B]), ('a heading only', [H1]), ('a heading and a change', [H1, B, C]), ('two headings', [H1, H2]),
+              ('blank lines in front', [B, B] + full), ('a change line only', [C]), ('a trailer only', [TRAILERS['complete']]),
+              ('a block followed by editor settings', full + [B, 'Local variables:', 'mode: debian-changelog', 'End:']),
+              ('a block followed by a vim line', full + [B, 'vim: set ts=4:']), ('a block followed by an old-format entry', full + [B, 'Old Changelog:', '  free text']),
+              ('a block followed by comments', full + [B, '# comment', '/* more */']), ('no blank line between two blocks', full + block(H2, 'complete')),
+              ('a change line after the trailer', full + [C]), ('two trailers', full + [TRAILERS['complete']])]
+
+    from .changelogmodel import interpret_text
+    bad = {'total': None, 'strict': None, 'normal': None}
+    n = 0
+    for label, lines in texts:
+        for final_nl in ((True, False) if tier == 'thorough' or lines == full else (True,)):
+            text = '\n'.join(lines) + ('\n' if lines and final_nl else '')
+            for aea in (False, True):
+                n += 1
+                where_ = '%s%s, allow_empty_author=%s' % (label, '' if final_nl else ' (last line unterminated)', aea)
+                r1 = interpret_text(src, text, False, aea)
+                warned = r1['warned']
+                if r1['raised'] is not None:
+                    bad['total'] = bad['total'] or '%s: the lenient constructor raises %s on %r' % (where_, r1['raised'], text)
+                    continue
+                exc_s = interpret_text(src, text, True, aea, and_format=False)['raised']
+                if (exc_s is not None) != bool(warned) or (exc_s is not None and not exc_s.endswith('ChangelogParseError')):
+                    bad['strict'] = bad['strict'] or '%s: lenient parsing warns %s, strict parsing %s (text %r)' % (
+                        where_, ('%d time(s), first %r' % (len(warned), warned[0])) if warned else 'not at all', 'raises %s' % exc_s if exc_s else 'returns', text)
+                if r1['format_raised'] is not None:
+                    if not r1['format_raised'].endswith('ChangelogCreateError'):          # (cannot be formatted: the clause does not speak)
+                        bad['normal'] = bad['normal'] or '%s: str() raises %s' % (where_, r1['format_raised'])
+                    continue
+                out, b1 = r1['text'], r1['blocks']
+                r2 = interpret_text(src, out, False, aea)
+                if r2['raised'] is not None or r2['format_raised'] is not None:
+                    bad['normal'] = bad['normal'] or '%s: the formatted text %r makes %s raise %s' % (where_, out, 'the lenient constructor' if r2['raised'] else 'str()', r2['raised'] or r2['format_raised'])
+                    continue
+                b2, out2 = r2['blocks'], r2['text']
+                if b1 != b2:
+                    k_ = next((i for i in range(min(len(b1), len(b2))) if b1[i] != b2[i]), min(len(b1), len(b2)))
+                    bad['normal'] = bad['normal'] or ('%s: parsed from %r the changelog has %d block(s); its formatted text %r parses to %d block(s)%s' % (
+                        where_, text, len(b1), out, len(b2), '' if k_ >= min(len(b1), len(b2)) else ', block %d differs in %s' % (
+                            k_ + 1, sorted(a_ for a_ in b1[k_] if b1[k_][a_] != b2[k_][a_]))))
+                elif out2 != out:
+                    bad['normal'] = bad['normal'] or '%s: the formatted text %r formats to %r the second time' % (where_, out, out2)
+    rep.analysed['paths'] += n
+    site = init.site
+    for key, what in (('total', 'lenient parsing returns'), ('strict', 'strict parsing raises exactly when lenient parsing warns'), ('normal', 'formatted output is a normal form')):
+        if bad[key]:
+            rep.fail('C15.R7', site, what + ' (interpreted texts)', bad[key], where=init.where)
+        else:
+            rep.ok('C15.R7', site, what + ' (interpreted texts)', '%d texts' % n)
 
 
 class _Proxy:
